@@ -139,10 +139,51 @@ func runC44(c *core.Ctx) {
 		return cc != nil && core.CallDesc(cc).Name == "splitPeerIds"
 	})
 	c.Check(why == "", "C44/eviction-from-given-list-only", "ComputeEvictionList/given-list-only-split", ce.Pos(), "the given list is only handed to splitPeerIds", "the given peer list is also used directly: "+why)
-	var cats []string
-	for _, in := range callsMatching(ce, pkg, "", "evict") {
+	// an eviction: evict(list, keep), or a function of the package that hands two of its parameters to its one evict call
+	type evictSite struct {
+		in         ssa.Instruction
+		list, keep ssa.Value
+	}
+	var evictSites []evictSite
+	core.Instrs(ce, func(in ssa.Instruction) {
 		cc := core.CallOf(in)
-		lk, ok := cc.Args[0].(*ssa.Lookup)
+		if cc == nil || cc.StaticCallee() == nil || cc.StaticCallee().Pkg != ce.Pkg {
+			return
+		}
+		h := cc.StaticCallee()
+		if h.Name() == "evict" && len(cc.Args) == 2 {
+			evictSites = append(evictSites, evictSite{in, cc.Args[0], cc.Args[1]})
+			return
+		}
+		if h.Blocks == nil {
+			return
+		}
+		inner := callsMatching(h, pkg, "", "evict")
+		if len(inner) != 1 {
+			return
+		}
+		ic := core.CallOf(inner[0])
+		var list, keep ssa.Value
+		for i, p := range h.Params {
+			if i >= len(cc.Args) {
+				continue
+			}
+			if ic.Args[0] == ssa.Value(p) {
+				list = cc.Args[i]
+			}
+			if ic.Args[1] == ssa.Value(p) {
+				keep = cc.Args[i]
+			}
+		}
+		if list != nil && keep != nil {
+			c.Analysed(fname(h))
+			evictSites = append(evictSites, evictSite{in, list, keep})
+		}
+	})
+	var cats []string
+	for _, es := range evictSites {
+		in := es.in
+		lk, ok := es.list.(*ssa.Lookup)
 		if !ok || lk.X != split {
 			c.Fail("C44/eviction-from-given-list-only", "ComputeEvictionList/evict-input", in.Pos(), "evict is applied to a list that is not a category of the split of the given peers")
 			continue
@@ -194,11 +235,11 @@ func runC44(c *core.Ctx) {
 		c.Check(n <= 1, "C44/quota-wiring", "ComputeEvictionList/spare-handed-on-once@"+sp.Name(), sp.Pos(), "a spare-slot count is consumed by at most one later category",
 			"the same spare-slot count is added to the limits of more than one category: the kept connections can exceed the target peer count")
 	}
-	for _, in := range callsMatching(ce, pkg, "", "evict") {
-		cc := core.CallOf(in)
-		if lk, ok := cc.Args[0].(*ssa.Lookup); ok {
+	for _, es := range evictSites {
+		in := es.in
+		if lk, ok := es.list.(*ssa.Lookup); ok {
 			cat := catName(lk.Index)
-			c.Check(keepOf[cat] != nil && cc.Args[1] == keepOf[cat], "C44/quota-wiring", "ComputeEvictionList/evict-"+cat, in.Pos(), "evict keeps the number computed for this category",
+			c.Check(keepOf[cat] != nil && es.keep == keepOf[cat], "C44/quota-wiring", "ComputeEvictionList/evict-"+cat, in.Pos(), "evict keeps the number computed for this category",
 				"evict("+cat+", …) is not given the number of peers computed for that category")
 		}
 	}
